@@ -104,6 +104,10 @@ class HttpWorld:
                 t = getattr(self.root, '_tasks', None)
                 if q == 0 and not t:
                     return True
+                if q > 600 and q > 20 * (_ + 1):
+                    # an event storm (every event breeds more than one new event): report it instead of drowning in it
+                    self.crashed = 'event storm: %d events queued after %d ticks' % (q, _)
+                    return False
                 self.root.tick()
         except BaseException as exc:  # noqa: BLE001 - an exception escaping tick() is itself a verdict
             self.crashed = '%s: %s' % (type(exc).__name__, exc)
@@ -115,6 +119,11 @@ class HttpWorld:
         return self.settle()
 
     def disconnect(self, sock):
+        # what the socket server does when a connection ends: the socket is closed, then `disconnect` is announced
+        try:
+            sock.close()
+        except OSError:
+            pass
         self.root.fire(disconnect(sock), 'web')
         return self.settle()
 
